@@ -269,11 +269,7 @@ func (t *Tokenizer) tokenizeBuffer(buf []byte, last bool) error {
 				if digitMap[b] != numDigit {
 					break
 				}
-				t.num.I = t.num.I*10 + uint64(b-'0')
-				if math.MaxInt64 < t.num.I {
-					t.num.FillBig()
-					break
-				}
+				t.num.AddDigit(b)
 			}
 			if off+1 < len(buf) && digitMap[b] == numDigit {
 				off++
